@@ -421,8 +421,22 @@ func (w *world) exec(line string) stepResult {
 		if f[2] == "1" {
 			w.refreshOnSecondGet = f[1]
 		}
+		w.removedByRefresh = nil
 		pan, hung = guarded(func() { w.h.ProcessNextNodeWorkItem(w.ctx) })
-		if w.refreshed {
+		if w.refreshed && w.removedByRefresh != nil && pan == "" && !hung {
+			// the node left the cache in the middle of the item: the delete handler of that cache update (it needs the
+			// allocator lock) runs once the item is through, with the final state of the node
+			var obj interface{} = w.removedByRefresh
+			if g, ok := w.graves[f[1]]; ok {
+				obj = g.DeepCopy()
+			}
+			w.removedByRefresh = nil
+			pan, hung = guarded(func() {
+				for _, h := range w.nodeInf.inf.handlers {
+					h.OnDelete(obj)
+				}
+			})
+		} else if w.refreshed {
 			w.nodeQ.Add(f[1]) // the notification that goes with the cache update
 		}
 		res = "ok"
